@@ -376,3 +376,122 @@ Proof.
     exists vs. apply decomps_spec. rewrite E. now left.
   - intros [vs H]. apply decomps_spec in H. destruct (decomps (r_parts r) path); [destruct H|reflexivity].
 Qed.
+
+(* ------------------------------------------------------------------ *)
+(** * Router.Match: the scan *)
+
+Lemma str_eqb_eq : forall a b : str, str_eqb a b = true <-> a = b.
+Proof.
+  unfold str_eqb. induction a as [|x a IH]; intros [|y b]; cbn [list_eqb]; try (split; [discriminate|intros H; discriminate H]).
+  - split; reflexivity.
+  - rewrite andb_true_iff, Z.eqb_eq, IH. split; [intros [-> ->]; reflexivity| intros [= -> ->]; now split].
+Qed.
+Lemma str_eqb_refl a : str_eqb a a = true.
+Proof. now apply str_eqb_eq. Qed.
+Lemma str_eqb_neq a b : str_eqb a b = false <-> a <> b.
+Proof. rewrite <- str_eqb_eq. destruct (str_eqb a b); split; congruence. Qed.
+
+Definition maximal_match (rs : list route) (path : str) (r : route) : Prop :=
+  In r rs /\ path_match r path = true /\
+  forall r', In r' rs -> path_match r' path = true -> (length (r_pat r') <= length (r_pat r))%nat.
+
+Lemma scan_spec : forall order path best n,
+  (forall b, best = Some b -> n = length (r_pat b)) ->
+  match scan order path best n with
+  | None => best = None /\ forall r, In r order -> path_match r path = false
+  | Some r =>
+      (best = Some r \/ (In r order /\ path_match r path = true)) /\
+      (forall r', In r' order -> path_match r' path = true -> (length (r_pat r') <= length (r_pat r))%nat) /\
+      (forall b, best = Some b -> (length (r_pat b) <= length (r_pat r))%nat)
+  end.
+Proof.
+  induction order as [|r0 rest IH]; intros path best n Hn; cbn [scan].
+  - destruct best as [b|].
+    + split; [now left|]. split; [intros r' []|]. intros b' [= <-]. lia.
+    + split; [reflexivity| intros r []].
+  - destruct (path_match r0 path) eqn:Em.
+    + destruct (is_none best || (n <? length (r_pat r0))%nat) eqn:Ec.
+      * specialize (IH path (Some r0) (length (r_pat r0))).
+        destruct (scan rest path (Some r0) (length (r_pat r0))) as [r|].
+        -- destruct IH as (H1 & H2 & H3); [intros b [= <-]; reflexivity|].
+           split; [|split].
+           ++ right. destruct H1 as [[= <-]|[Hin Hm]]; [split; [now left|exact Em]| split; [now right|exact Hm]].
+           ++ intros r' [<-|Hin] Hm; [now apply H3| now apply H2].
+           ++ intros b ->. cbn in Ec. apply Nat.ltb_lt in Ec. specialize (Hn b eq_refl).
+              specialize (H3 r0 eq_refl). lia.
+        -- destruct IH as [H _]; [intros b [= <-]; reflexivity|]. discriminate.
+      * apply orb_false_iff in Ec as [Eb Ec]. destruct best as [b|]; [|discriminate]. apply Nat.ltb_ge in Ec.
+        specialize (IH path (Some b) n Hn).
+        destruct (scan rest path (Some b) n) as [r|].
+        -- destruct IH as (H1 & H2 & H3). split; [|split].
+           ++ destruct H1 as [H1|[Hin Hm]]; [now left| right; split; [now right|exact Hm]].
+           ++ intros r' [<-|Hin] Hm; [|now apply H2]. specialize (H3 b eq_refl). specialize (Hn b eq_refl). lia.
+           ++ exact H3.
+        -- destruct IH as [H _]. discriminate.
+    + specialize (IH path best n Hn). destruct (scan rest path best n) as [r|].
+      * destruct IH as (H1 & H2 & H3). split; [|split].
+        -- destruct H1 as [H1|[Hin Hm]]; [now left| right; split; [now right|exact Hm]].
+        -- intros r' [<-|Hin] Hm; [congruence| now apply H2].
+        -- exact H3.
+      * destruct IH as [H1 H2]. split; [exact H1|]. intros r [<-|Hin]; [exact Em| now apply H2].
+Qed.
+
+(* whatever the iteration order, the scan returns a longest matching route *)
+Theorem scan_some order path r :
+  scan order path None O = Some r -> maximal_match order path r.
+Proof.
+  intros E. pose proof (scan_spec order path None O) as H. rewrite E in H.
+  destruct H as (H1 & H2 & _); [discriminate|].
+  destruct H1 as [H1|[Hin Hm]]; [discriminate|]. repeat split; assumption.
+Qed.
+Theorem scan_none order path :
+  scan order path None O = None <-> forall r, In r order -> path_match r path = false.
+Proof.
+  split.
+  - intros E. pose proof (scan_spec order path None O) as H. rewrite E in H. apply H. discriminate.
+  - intros Hno. destruct (scan order path None O) as [r|] eqn:E; [|reflexivity].
+    apply scan_some in E as (Hin & Hm & _). rewrite Hno in Hm by assumption. discriminate.
+Qed.
+
+(* a matching route that is visited first and is at least as long as every
+   other matching one is the one returned (ties: first visited wins) *)
+Lemma scan_keep : forall rest path r,
+  (forall r', In r' rest -> path_match r' path = true -> (length (r_pat r') <= length (r_pat r))%nat) ->
+  scan rest path (Some r) (length (r_pat r)) = Some r.
+Proof.
+  induction rest as [|r0 rest IH]; intros path r Hmax; cbn [scan]; [reflexivity|].
+  destruct (path_match r0 path) eqn:Em.
+  - assert (Hle : (length (r_pat r0) <= length (r_pat r))%nat) by (apply Hmax; [now left|exact Em]).
+    cbn [is_none orb]. destruct (Nat.ltb_spec (length (r_pat r)) (length (r_pat r0))); [lia|].
+    apply IH. intros r' Hin. apply Hmax. now right.
+  - apply IH. intros r' Hin. apply Hmax. now right.
+Qed.
+Theorem scan_first rest path r :
+  path_match r path = true ->
+  (forall r', In r' rest -> path_match r' path = true -> (length (r_pat r') <= length (r_pat r))%nat) ->
+  scan (r :: rest) path None O = Some r.
+Proof. intros Hm Hmax. cbn [scan]. rewrite Hm. cbn [is_none orb]. now apply scan_keep. Qed.
+
+Lemma filter_partition_perm {A} (f : A -> bool) (l : list A) :
+  Permutation (filter f l ++ filter (fun x => negb (f x)) l) l.
+Proof.
+  induction l as [|x l IH]; cbn [filter]; [constructor|].
+  destruct (f x); cbn [negb app].
+  - now constructor.
+  - symmetry. apply Permutation_cons_app. now symmetry.
+Qed.
+
+(* the outcomes of the scan over all iteration orders are exactly the longest
+   matching routes *)
+Theorem scan_exact (rs : list route) path r :
+  (exists order, Permutation order rs /\ scan order path None O = Some r) <-> maximal_match rs path r.
+Proof.
+  split.
+  - intros (order & Hp & E). apply scan_some in E as (Hin & Hm & Hmax).
+    repeat split; [eapply Permutation_in; eauto| exact Hm|].
+    intros r' Hin'. apply Hmax. eapply Permutation_in; [symmetry|]; eauto.
+  - intros (Hin & Hm & Hmax). apply in_split in Hin as (l1 & l2 & ->).
+    exists (r :: l1 ++ l2). split; [apply Permutation_middle|].
+    apply scan_first; [exact Hm|]. intros r' Hin'. apply Hmax.
+    apply in_app_iff in Hin'. apply in_app_iff. destruct Hin'; [now left| right; now right].
+Qed.
